@@ -11,7 +11,8 @@ EXPLANATION = ("Narrow claim: necessary structural conditions of the two sentenc
                "thread spawn is reachable from it, and the sink's table holds; R11.3 every multi-step file-system change is ordered so that a kill "
                "between two steps loses nothing: rename before create at rotation, .gz finished before the original is removed, a missing current "
                "file tolerated at restart, symlink failures reported but never propagated; R11.4 start-up derives its state only from the directory "
-               "listing and file metadata (no file is read, nothing else is persisted). R11.5 start table (shared with R06.3/R06.5): the previous process's current file is found under the name this naming writes to and rotated or continued, never truncated. R11.3 also: the probe deciding whether an old symlink must be removed does not follow the link (a kill can leave it dangling).")
+               "listing and file metadata (no file is read, nothing else is persisted). R11.5 start table (shared with R06.3/R06.5): the previous process's current file is found under the name this naming writes to and rotated or continued, never truncated. R11.3 also: the probe deciding whether an old symlink must be removed does not follow the link (a kill can leave it dangling)."
+               " R11.1 also: reopen_outputfile wraps the re-opened file in a BufWriter only on paths on which buffersize() is Some, and no third function constructs a BufWriter<File> for the log file.")
 ASSUMPTIONS = ["write(2) of a completed write_all survives a process kill (page cache)", "rename(2) is atomic"]
 NOT_DECIDED = ["every quantification over crash points and the directory states they leave", "torn last line", "restart succeeding from a half-written .gz",
                "interaction with cleanup limits"]
